@@ -61,7 +61,7 @@ def generate(rng, tier):
                     x = min(max(x, margin), s - 1.0 - margin)
                 pix.append(x)
             pts.append({"pix": pix, "none_bits": rng.choice([0, 0, 0, 1, 2, 3, 5])})
-        if allow_off and len(pts) >= 2 and rng.random() < 0.1:
+        if allow_off and len(pts) >= 2 and rng.random() < 0.2:
             # edge cluster: on one axis every point sits in the first (last) pixel or just off that end of the
             # array, so the clipped box is one element wide although the raw indices differ
             a = rng.randrange(nd)
